@@ -1,5 +1,6 @@
 import PyYetiVerif.Props.C16
 import PyYetiVerif.Props.C16Full
+import PyYetiVerif.Props.C16FullRoutine
 import PyYetiVerif.Props.C16Pipe
 import PyYetiVerif.Props.C16Psd
 #print axioms PyYetiVerif.C16.ext_is_fold_max
@@ -35,3 +36,5 @@ import PyYetiVerif.Props.C16Psd
 #print axioms PyYetiVerif.C16.psd_recovery_is_peak_extreme
 #print axioms PyYetiVerif.C16.uf_split_full_routine
 #print axioms PyYetiVerif.C16.stat_ext_sanity
+#print axioms PyYetiVerif.C16.uf_scaling_full_routine
+#print axioms PyYetiVerif.C16.uf_unit_full_routine
